@@ -2,6 +2,7 @@
 //! one ndjson event per call with the projected abstract state (see /verif/DESIGN.md section 5).
 mod common;
 mod cw20;
+mod cw3;
 mod thr;
 
 use common::*;
@@ -55,6 +56,7 @@ fn main() {
             run_no += 1;
             match sys.as_str() {
                 "cw20" => cw20::run_schedule(&sched, run_no, &mut out),
+                "cw3" => cw3::run_schedule(&sched, run_no, &mut out),
                 _ => {
                     eprintln!("unknown system {sys}");
                     std::process::exit(2);
@@ -76,6 +78,7 @@ fn main() {
         run_no += 1;
         match sys.as_str() {
             "cw20" => cw20::random_run(&mut rng, run_no, len, &mut out),
+            "cw3" => cw3::random_run(&mut rng, run_no, len, &mut out),
             _ => {
                 eprintln!("unknown system {sys}");
                 std::process::exit(2);
